@@ -2,6 +2,7 @@ package vuego
 
 import (
 	"fmt"
+	"sort"
 	"strconv"
 	"strings"
 
@@ -62,8 +63,10 @@ func (v *Vue) evalAttributes(ctx VueContext, n *html.Node) (map[string]any, erro
 		}
 	}
 
-	// Second pass: merge bound attributes with static ones
-	for attrName, boundValue := range results {
+	// Second pass: merge bound attributes with static ones.
+	// Iterate in sorted order so the rendered attribute order is deterministic.
+	for _, attrName := range sortedKeys(results) {
+		boundValue := results[attrName]
 		// Check if there's a static attribute with the same name
 		staticIdx := -1
 		for i, a := range newAttrs {
@@ -379,12 +382,22 @@ func (v *Vue) mergeStyles(staticStyle, boundStyle string) string {
 		staticMap[k] = v
 	}
 
-	// Rebuild style string
+	// Rebuild style string (sorted, so the output is deterministic)
 	var styles []string
-	for k, v := range staticMap {
-		styles = append(styles, k+":"+v+";")
+	for _, k := range sortedKeys(staticMap) {
+		styles = append(styles, k+":"+staticMap[k]+";")
 	}
 	return strings.Join(styles, "")
+}
+
+// sortedKeys returns the keys of m in ascending order.
+func sortedKeys[V any](m map[string]V) []string {
+	keys := make([]string, 0, len(m))
+	for k := range m {
+		keys = append(keys, k)
+	}
+	sort.Strings(keys)
+	return keys
 }
 
 // parseStyleMap parses a CSS style string into a map of properties to values.
